@@ -119,6 +119,27 @@ Qed.
 Lemma unflatten_length {Y} n t (l : list Y) : length (unflatten n t l) = n.
 Proof. revert l. induction n as [|n IH]; intros l; cbn; [reflexivity|]. now rewrite IH. Qed.
 
+Lemma cellsF_firstn {Y} F k (l : list (list Y)) : cellsF F l -> cellsF F (firstn k l).
+Proof.
+  revert k. induction l as [|a l IH]; intros k H; [now rewrite firstn_nil|]. destruct k; [constructor|].
+  inversion H as [|? ? Ha Hl]. cbn. constructor; [assumption|]. now apply IH.
+Qed.
+
+Lemma cellsF_skipn {Y} F k (l : list (list Y)) : cellsF F l -> cellsF F (skipn k l).
+Proof.
+  revert k. induction l as [|a l IH]; intros k H; [now rewrite skipn_nil|]. destruct k; [assumption|].
+  inversion H as [|? ? Ha Hl]. cbn. now apply IH.
+Qed.
+
+(* the rows of a reshaped flat list of cells: t cells each, every cell whole *)
+Lemma unflatten_wf {Y} F n t (l : list (list Y)) :
+  length l = n * t -> cellsF F l -> Forall (fun row => length row = t /\ cellsF F row) (unflatten n t l).
+Proof.
+  revert l. induction n as [|n IH]; intros l HL HC; cbn [unflatten]; constructor.
+  - split; [rewrite firstn_length; lia|now apply cellsF_firstn].
+  - apply IH; [rewrite skipn_length; lia|now apply cellsF_skipn].
+Qed.
+
 Lemma concat_concat_map {Y} (l : list (list (list Y))) : concat (concat l) = concat (map (@concat Y) l).
 Proof. induction l as [|a l IH]; [reflexivity|]. cbn. now rewrite concat_app, IH. Qed.
 
@@ -394,6 +415,7 @@ Section Mod.
   Definition pad_rel (m : res (list (list (list val)))) (s : res (list val)) : Prop :=
     match m with
     | Ok out => s = Ok (concat (map (@concat val) out)) /\ length out = N
+                /\ Forall (fun row => length row = TpS N lf pf qf /\ cellsF F row) out
     | ErrValue => s = ErrValue
     | ErrRuntime => s = ErrRuntime
     | ErrNotImpl => s = ErrNotImpl
@@ -438,7 +460,7 @@ Section Mod.
     assert (L1 : length l1 = N * Tp) by (rewrite (mscatter_length _ _ _ _ E1), LM1, LD0; lia).
     destruct md; [| | |discriminate EG].
     - (* constant *)
-      split; [now rewrite <- concat_concat_map, concat_unflatten by assumption|apply unflatten_length].
+      split; [now rewrite <- concat_concat_map, concat_unflatten by assumption|split; [apply unflatten_length|now apply unflatten_wf]].
     - (* reflect *)
       rewrite concat_unflatten by assumption.
       match goal with |- context [Model.mscatter (concat (map ?g rowsM)) l1 l] =>
@@ -457,7 +479,8 @@ Section Mod.
         destruct (Model.mscatter (concat (map g rowsM)) l2 r) as [l3|] eqn:E3
       end; cbn [option_map Model.bind]; [|reflexivity].
       assert (L3 : length l3 = N * Tp) by (rewrite (mscatter_length _ _ _ _ E3), LM3, L2; lia).
-      split; [now rewrite <- concat_concat_map, concat_unflatten by assumption|apply unflatten_length].
+      pose proof (cellsF_mscatter F _ _ _ _ E3 C2 Cr) as C3.
+      split; [now rewrite <- concat_concat_map, concat_unflatten by assumption|split; [apply unflatten_length|now apply unflatten_wf]].
     - (* replicate *)
       rewrite concat_unflatten by assumption.
       match goal with |- context [Model.mscatter (concat (map ?g rowsM)) l1 l] =>
@@ -476,6 +499,7 @@ Section Mod.
         destruct (Model.mscatter (concat (map g rowsM)) l2 r) as [l3|] eqn:E3
       end; cbn [option_map Model.bind]; [|reflexivity].
       assert (L3 : length l3 = N * Tp) by (rewrite (mscatter_length _ _ _ _ E3), LM3, L2; lia).
-      split; [now rewrite <- concat_concat_map, concat_unflatten by assumption|apply unflatten_length].
+      pose proof (cellsF_mscatter F _ _ _ _ E3 C2 Cr) as C3.
+      split; [now rewrite <- concat_concat_map, concat_unflatten by assumption|split; [apply unflatten_length|now apply unflatten_wf]].
   Qed.
 End Mod.
